@@ -315,6 +315,16 @@ def key_pools(draw, cfg, n=(3, 6), stable_only=False):
             if key_ok(cfg, k) and not any(k == b for b in built) and not (is_dir(cfg) and any(fname(k) == fname(b) for b in built)):
                 pool.append(spec)
                 built.append(k)
+    if is_dir(cfg) and draw(st.integers(0, 2)) == 0:
+        # keys whose TEXT contains what the directory layout uses itself: the entry prefix 'K_' inside the key, glob / pattern characters, and the
+        # same inside a key that needs an input file
+        specials = [['s', 'TASK_7'], ['s', 'K_1'], ['s', 'xK_K_y'], ['s', 'OK_'], ['s', 'a[b]c'], ['s', 'x[-1]'], ['t', [['s', 'row[0]'], ['i', 3]]], ['s', 'q*'], ['s', 'w?'],
+                    ['t', [['s', 'K_k'], ['i', 1]]]]
+        for spec in draw(st.lists(st.sampled_from(specials), min_size=1, max_size=2, unique_by=repr)):
+            k = build_key(spec)
+            if key_ok(cfg, k) and not any(k == b for b in built) and not any(fname(k) == fname(b) for b in built):
+                pool.append(spec)
+                built.append(k)
     if is_dir(cfg) and draw(st.integers(0, 5)) == 0:
         # a key whose entry name is at (or just under) the file-name length limit: 'K_' + key fits in 255 bytes, anything longer derived from it does not
         spec = ['s', 'k' * draw(st.sampled_from([253, 252, 251, 200]))]
